@@ -298,7 +298,16 @@ func (s *SSH) line(l string) {
 		s.emit("\r\n" + crlf(s.Banner) + s.prompt())
 		return
 	case "user":
-		s.rec(l, ClLogin, dev, true)
+		if l == s.Pass {
+			s.rec("<password>", ClLogin, dev, true)
+		} else {
+			s.rec(l, ClLogin, dev, true)
+		}
+		if l == "enable" && dev == DevError {
+			// enable refused without asking for a password
+			s.emit("enable\r\n% Error in authentication.\r\n\r\n" + s.Hostname + "> ")
+			return
+		}
 		if l == "enable" {
 			s.phase = "enable-pass"
 			s.emit("enable\r\nPassword: ")
